@@ -422,3 +422,221 @@ spec fn payload_enc(p: Seq<(Seq<char>, J)>, u: Seq<(Seq<char>, J)>, s: Strat, hk
         && !j_has(p0, K_DOTS()) && sd_list_ok(p0)
         && enc(J::Obj(without_root(u)), s, J::Obj(p0), ds, off)
 }
+
+// ---- decoys everywhere (C12) ----
+// `dcy(u, s, p, D, off, fl)`: along the same addressing as `enc`, EVERY object of the marked form p of u -- in the payload and
+// inside every disclosed value, at any depth -- has a digest list that is longer than its number of designated members by at
+// least one when decoys are on (fl), and exactly as long when they are off.  The per-call clauses C12.decoys_present /
+// C12.no_decoys_when_off speak about one object; this relation carries them through the recursion.
+spec fn cnt_ok(m: Seq<(Seq<char>, J)>, s: Strat, pm: Seq<(Seq<char>, J)>, fl: bool) -> bool {
+    if fl { sd_list_len(pm) >= hidden_cnt(m, s, m.len()) + 1 } else { sd_list_len(pm) == hidden_cnt(m, s, m.len()) }
+}
+spec fn dcy(u: J, s: Strat, p: J, ds: DS, off: int, fl: bool) -> bool decreases u, 0nat {
+    match u {
+        J::Arr(a) => p is Arr && dcy_arr(a, s, p->Arr_0, ds, off, a.len(), fl),
+        J::Obj(m) => p is Obj && dcy_members(m, s, p->Obj_0, ds, off, m.len(), fl) && cnt_ok(m, s, p->Obj_0, fl),
+        _ => true,
+    }
+}
+spec fn dcy_elem(a: Seq<J>, s: Strat, pa: Seq<J>, ds: DS, off: int, i: int, fl: bool) -> bool
+    decreases a, 0nat
+    when 0 <= i < a.len()
+{
+    let k = index_key_spec(i);
+    let sub = next_spec(s, k);
+    let o = off + hcount_arr(a, s, i as nat);
+    if sd_spec(s, k) { dcy(a[i], sub, dj(ds[o + hcount(a[i], sub)])[1], ds, o, fl) } else { dcy(a[i], sub, pa[i], ds, o, fl) }
+}
+spec fn dcy_arr(a: Seq<J>, s: Strat, pa: Seq<J>, ds: DS, off: int, n: nat, fl: bool) -> bool decreases a, n + 1 {
+    if n == 0 { true } else if n > a.len() || n > pa.len() { false } else {
+        dcy_arr(a, s, pa, ds, off, (n - 1) as nat, fl) && dcy_elem(a, s, pa, ds, off, n - 1, fl)
+    }
+}
+spec fn dcy_member(m: Seq<(Seq<char>, J)>, s: Strat, pm: Seq<(Seq<char>, J)>, ds: DS, off: int, i: int, fl: bool) -> bool
+    decreases m, 0nat
+    when 0 <= i < m.len()
+{
+    let (k, v) = m[i];
+    let sub = next_spec(s, k);
+    let o = off + hcount_members(m, s, i as nat);
+    if sd_spec(s, k) { dcy(v, sub, dj(ds[o + hcount(v, sub)])[2], ds, o, fl) } else { j_has(pm, k) && dcy(v, sub, j_get(pm, k)->Some_0, ds, o, fl) }
+}
+spec fn dcy_members(m: Seq<(Seq<char>, J)>, s: Strat, pm: Seq<(Seq<char>, J)>, ds: DS, off: int, n: nat, fl: bool) -> bool decreases m, n + 1 {
+    if n == 0 { true } else if n > m.len() { false } else {
+        dcy_members(m, s, pm, ds, off, (n - 1) as nat, fl) && dcy_member(m, s, pm, ds, off, n - 1, fl)
+    }
+}
+proof fn lemma_dcy_extends(u: J, s: Strat, p: J, d1: DS, d2: DS, off: int, fl: bool)
+    requires off >= 0, same_upto(d1, d2, off + hcount(u, s)), dcy(u, s, p, d1, off, fl)
+    ensures dcy(u, s, p, d2, off, fl)
+    decreases u, 0nat
+{
+    match u {
+        J::Arr(a) => { lemma_dcy_arr_extends(a, s, p->Arr_0, d1, d2, off, a.len(), a.len(), fl); }
+        J::Obj(m) => { lemma_dcy_members_extends(m, s, p->Obj_0, d1, d2, off, m.len(), m.len(), fl); }
+        _ => {}
+    }
+}
+proof fn lemma_dcy_arr_extends(a: Seq<J>, s: Strat, pa: Seq<J>, d1: DS, d2: DS, off: int, n: nat, top: nat, fl: bool)
+    requires off >= 0, n <= top <= a.len(), same_upto(d1, d2, off + hcount_arr(a, s, top)), dcy_arr(a, s, pa, d1, off, n, fl)
+    ensures dcy_arr(a, s, pa, d2, off, n, fl)
+    decreases a, n + 1
+{
+    if n > 0 {
+        lemma_dcy_arr_extends(a, s, pa, d1, d2, off, (n - 1) as nat, top, fl);
+        let i = n - 1;
+        let k = index_key_spec(i);
+        let sub = next_spec(s, k);
+        let o = off + hcount_arr(a, s, i as nat);
+        lemma_hcount_arr_mono(a, s, n, top);
+        assert(hcount_arr(a, s, n) == hcount_arr(a, s, i as nat) + hcount(a[i], sub) + (if sd_spec(s, k) { 1nat } else { 0nat }));
+        assert(dcy_elem(a, s, pa, d1, off, i, fl));
+        if sd_spec(s, k) {
+            let d = d1[o + hcount(a[i], sub)];
+            assert(d2[o + hcount(a[i], sub)] == d);
+            lemma_dcy_extends(a[i], sub, dj(d)[1], d1, d2, o, fl);
+        } else {
+            lemma_dcy_extends(a[i], sub, pa[i], d1, d2, o, fl);
+        }
+        assert(dcy_elem(a, s, pa, d2, off, i, fl));
+    }
+}
+proof fn lemma_dcy_members_extends(m: Seq<(Seq<char>, J)>, s: Strat, pm: Seq<(Seq<char>, J)>, d1: DS, d2: DS, off: int, n: nat, top: nat, fl: bool)
+    requires off >= 0, n <= top <= m.len(), same_upto(d1, d2, off + hcount_members(m, s, top)), dcy_members(m, s, pm, d1, off, n, fl)
+    ensures dcy_members(m, s, pm, d2, off, n, fl)
+    decreases m, n + 1
+{
+    if n > 0 {
+        lemma_dcy_members_extends(m, s, pm, d1, d2, off, (n - 1) as nat, top, fl);
+        let i = n - 1;
+        let (k, v) = m[i];
+        let sub = next_spec(s, k);
+        let o = off + hcount_members(m, s, i as nat);
+        lemma_hcount_members_mono(m, s, n, top);
+        assert(hcount_members(m, s, n) == hcount_members(m, s, i as nat) + hcount(v, sub) + (if sd_spec(s, k) { 1nat } else { 0nat }));
+        assert(dcy_member(m, s, pm, d1, off, i, fl));
+        if sd_spec(s, k) {
+            let d = d1[o + hcount(v, sub)];
+            assert(d2[o + hcount(v, sub)] == d);
+            lemma_dcy_extends(v, sub, dj(d)[2], d1, d2, o, fl);
+        } else {
+            lemma_dcy_extends(v, sub, j_get(pm, k)->Some_0, d1, d2, o, fl);
+        }
+        assert(dcy_member(m, s, pm, d2, off, i, fl));
+    }
+}
+proof fn lemma_dcy_members_pm(m: Seq<(Seq<char>, J)>, s: Strat, pm1: Seq<(Seq<char>, J)>, pm2: Seq<(Seq<char>, J)>, ds: DS, off: int, n: nat, fl: bool)
+    requires n <= m.len(), dcy_members(m, s, pm1, ds, off, n, fl),
+        forall|i: int| 0 <= i < n && !sd_spec(s, (#[trigger] m[i]).0) && j_has(pm1, m[i].0) ==> j_has(pm2, m[i].0) && j_get(pm2, m[i].0) == j_get(pm1, m[i].0),
+    ensures dcy_members(m, s, pm2, ds, off, n, fl)
+    decreases n
+{
+    if n > 0 {
+        lemma_dcy_members_pm(m, s, pm1, pm2, ds, off, (n - 1) as nat, fl);
+        assert(dcy_member(m, s, pm1, ds, off, n - 1, fl));
+        let _ = m[n - 1];
+        assert(dcy_member(m, s, pm2, ds, off, n - 1, fl));
+    }
+}
+proof fn lemma_dcy_arr_pa(a: Seq<J>, s: Strat, pa1: Seq<J>, pa2: Seq<J>, ds: DS, off: int, n: nat, fl: bool)
+    requires n <= pa1.len() <= pa2.len(), forall|i: int| 0 <= i < n ==> pa1[i] == pa2[i], dcy_arr(a, s, pa1, ds, off, n, fl)
+    ensures dcy_arr(a, s, pa2, ds, off, n, fl)
+    decreases n
+{
+    if n > 0 {
+        lemma_dcy_arr_pa(a, s, pa1, pa2, ds, off, (n - 1) as nat, fl);
+        assert(dcy_elem(a, s, pa1, ds, off, n - 1, fl));
+        assert(dcy_elem(a, s, pa2, ds, off, n - 1, fl));
+    }
+}
+proof fn lemma_dcy_list_visible(a: Seq<J>, s: Strat, pa0: Seq<J>, pa1: Seq<J>, ds0: DS, ds1: DS, off: int, i: int, fl: bool)
+    requires 0 <= i < a.len(), off >= 0, pa0.len() == i, pa1.len() == i + 1, forall|q: int| 0 <= q < i ==> pa1[q] == pa0[q],
+        ds0.len() == off + hcount_arr(a, s, i as nat), same_upto(ds0, ds1, ds0.len() as int),
+        dcy_arr(a, s, pa0, ds0, off, i as nat, fl),
+        !sd_spec(s, index_key_spec(i)),
+        dcy(a[i], next_spec(s, index_key_spec(i)), pa1[i], ds1, ds0.len() as int, fl),
+    ensures dcy_arr(a, s, pa1, ds1, off, (i + 1) as nat, fl)
+{
+    lemma_dcy_arr_extends(a, s, pa0, ds0, ds1, off, i as nat, i as nat, fl);
+    lemma_dcy_arr_pa(a, s, pa0, pa1, ds1, off, i as nat, fl);
+    assert(dcy_elem(a, s, pa1, ds1, off, i, fl));
+}
+proof fn lemma_dcy_list_hidden(a: Seq<J>, s: Strat, pa0: Seq<J>, pa1: Seq<J>, ds0: DS, dsm: DS, ds1: DS, off: int, i: int, fl: bool)
+    requires 0 <= i < a.len(), off >= 0, pa0.len() == i, pa1.len() == i + 1, forall|q: int| 0 <= q < i ==> pa1[q] == pa0[q],
+        ds0.len() == off + hcount_arr(a, s, i as nat), same_upto(ds0, dsm, ds0.len() as int),
+        dcy_arr(a, s, pa0, ds0, off, i as nat, fl),
+        sd_spec(s, index_key_spec(i)),
+        dsm.len() == ds0.len() + hcount(a[i], next_spec(s, index_key_spec(i))),
+        ds1.len() == dsm.len() + 1, same_upto(dsm, ds1, dsm.len() as int),
+        dcy(a[i], next_spec(s, index_key_spec(i)), dj(ds1[dsm.len() as int])[1], dsm, ds0.len() as int, fl),
+    ensures dcy_arr(a, s, pa1, ds1, off, (i + 1) as nat, fl)
+{
+    let sub = next_spec(s, index_key_spec(i));
+    lemma_dcy_arr_extends(a, s, pa0, ds0, ds1, off, i as nat, i as nat, fl);
+    lemma_dcy_arr_pa(a, s, pa0, pa1, ds1, off, i as nat, fl);
+    lemma_dcy_extends(a[i], sub, dj(ds1[dsm.len() as int])[1], dsm, ds1, ds0.len() as int, fl);
+    assert(dcy_elem(a, s, pa1, ds1, off, i, fl));
+}
+proof fn lemma_dcy_obj_visible(m: Seq<(Seq<char>, J)>, s: Strat, pm0: Seq<(Seq<char>, J)>, pv: J, ds0: DS, ds1: DS, off: int, i: int, fl: bool)
+    requires 0 <= i < m.len(), off >= 0,
+        ds0.len() == off + hcount_members(m, s, i as nat), same_upto(ds0, ds1, ds0.len() as int),
+        dcy_members(m, s, pm0, ds0, off, i as nat, fl),
+        !sd_spec(s, m[i].0), !j_has(pm0, m[i].0),
+        dcy(m[i].1, next_spec(s, m[i].0), pv, ds1, ds0.len() as int, fl),
+    ensures dcy_members(m, s, pm0.push((m[i].0, pv)), ds1, off, (i + 1) as nat, fl)
+{
+    let pm1 = pm0.push((m[i].0, pv));
+    lemma_dcy_members_extends(m, s, pm0, ds0, ds1, off, i as nat, i as nat, fl);
+    assert forall|q: int| 0 <= q < i && !sd_spec(s, (#[trigger] m[q]).0) && j_has(pm0, m[q].0) implies j_has(pm1, m[q].0) && j_get(pm1, m[q].0) == j_get(pm0, m[q].0) by {
+        lemma_j_get_push(pm0, (m[i].0, pv), m[q].0);
+    }
+    lemma_dcy_members_pm(m, s, pm0, pm1, ds1, off, i as nat, fl);
+    lemma_j_get_push_new(pm0, m[i].0, pv);
+    let _ = m[i];
+    assert(dcy_member(m, s, pm1, ds1, off, i, fl));
+}
+proof fn lemma_dcy_obj_hidden(m: Seq<(Seq<char>, J)>, s: Strat, pm: Seq<(Seq<char>, J)>, ds0: DS, dsm: DS, ds1: DS, off: int, i: int, fl: bool)
+    requires 0 <= i < m.len(), off >= 0,
+        ds0.len() == off + hcount_members(m, s, i as nat), same_upto(ds0, dsm, ds0.len() as int),
+        dcy_members(m, s, pm, ds0, off, i as nat, fl),
+        sd_spec(s, m[i].0),
+        dsm.len() == ds0.len() + hcount(m[i].1, next_spec(s, m[i].0)),
+        ds1.len() == dsm.len() + 1, same_upto(dsm, ds1, dsm.len() as int),
+        dcy(m[i].1, next_spec(s, m[i].0), dj(ds1[dsm.len() as int])[2], dsm, ds0.len() as int, fl),
+    ensures dcy_members(m, s, pm, ds1, off, (i + 1) as nat, fl)
+{
+    let sub = next_spec(s, m[i].0);
+    lemma_dcy_members_extends(m, s, pm, ds0, ds1, off, i as nat, i as nat, fl);
+    lemma_dcy_extends(m[i].1, sub, dj(ds1[dsm.len() as int])[2], dsm, ds1, ds0.len() as int, fl);
+    let _ = m[i];
+    assert(dcy_member(m, s, pm, ds1, off, i, fl));
+}
+proof fn lemma_dcy_obj_finish_update(m: Seq<(Seq<char>, J)>, s: Strat, pm1: Seq<(Seq<char>, J)>, v: J, ds: DS, off: int, fl: bool)
+    requires !has_reserved_entries(m), pm1.len() > 0, pm1[0].0 == K_SD(),
+        dcy_members(m, s, pm1, ds, off, m.len(), fl),
+    ensures dcy_members(m, s, pm1.update(0, (K_SD(), v)), ds, off, m.len(), fl)
+{
+    let pm2 = pm1.update(0, (K_SD(), v));
+    assert forall|q: int| 0 <= q < m.len() && !sd_spec(s, (#[trigger] m[q]).0) && j_has(pm1, m[q].0) implies j_has(pm2, m[q].0) && j_get(pm2, m[q].0) == j_get(pm1, m[q].0) by {
+        lemma_entries_elem(m, q);
+        lemma_j_get_update(pm1, 0, v, m[q].0);
+    }
+    lemma_dcy_members_pm(m, s, pm1, pm2, ds, off, m.len(), fl);
+}
+proof fn lemma_dcy_obj_finish_remove(m: Seq<(Seq<char>, J)>, s: Strat, pm1: Seq<(Seq<char>, J)>, ds: DS, off: int, fl: bool)
+    requires !has_reserved_entries(m), pm1.len() > 0, pm1[0].0 == K_SD(),
+        dcy_members(m, s, pm1, ds, off, m.len(), fl),
+    ensures dcy_members(m, s, pm1.remove(0), ds, off, m.len(), fl)
+{
+    let pm2 = pm1.remove(0);
+    assert forall|q: int| 0 <= q < m.len() && !sd_spec(s, (#[trigger] m[q]).0) && j_has(pm1, m[q].0) implies j_has(pm2, m[q].0) && j_get(pm2, m[q].0) == j_get(pm1, m[q].0) by {
+        lemma_entries_elem(m, q);
+        lemma_j_get_remove0(pm1, m[q].0);
+    }
+    lemma_dcy_members_pm(m, s, pm1, pm2, ds, off, m.len(), fl);
+}
+// the payload side at the top level (the decoy analogue of payload_enc)
+spec fn payload_dcy(p: Seq<(Seq<char>, J)>, u: Seq<(Seq<char>, J)>, s: Strat, hk: Option<jsonwebtoken::jwk::Jwk>, ds: DS, off: int, fl: bool) -> bool {
+    exists|p0: Seq<(Seq<char>, J)>| #![trigger j_insert(p0, K_SD_ALG(), J::Str("sha-256"@))]
+        p == asm(p0, only_root(u), hk) && dcy(J::Obj(without_root(u)), s, J::Obj(p0), ds, off, fl)
+}
